@@ -79,3 +79,28 @@ def standard_track(t):
         if pd is None or td is None or len(pd) != 3 or len(td) != 8:       # e.g. a slotted class: take the generic path
             return False
     return True
+
+
+# ---------------------------------------------------------------------------
+# container-agnostic reading of results: the statements speak of values, not of the container that carries them.  A result that
+# the library documents as "a list" may come back as a list subclass, a tuple, a numpy array ... (soundness wave k4)
+# ---------------------------------------------------------------------------
+def seq(v):
+    """v as a plain list when it is a finite one-dimensional sequence (list, tuple, numpy array, any sized indexable object
+    that is not a string, bytes or a mapping), else None."""
+    if isinstance(v, (str, bytes, bytearray, dict, set, frozenset)) or v is None:
+        return None
+    if isinstance(v, (list, tuple)):
+        return list(v)
+    if hasattr(v, "__len__") and hasattr(v, "__getitem__"):
+        try:
+            return [v[i] for i in range(len(v))]
+        except Exception:
+            return None
+    return None
+
+
+def is_index(v):
+    """An integer index whatever its type (int, numpy integer), not a bool."""
+    import numbers
+    return isinstance(v, numbers.Integral) and not isinstance(v, bool)
